@@ -104,9 +104,9 @@ def render_def(d: dict, deco: dict, idx: int) -> typing.Tuple[str, typing.List[d
         text += t + e
         l = src[i]
         mlines.append({"s": l.get("s"), "refs": l.get("refs") or [], "deps": l.get("deps") or [], "offs": bool(l.get("offs")),
-                       "fault": l.get("fault"), "c": l.get("c"), "e": len(t) == 0, "crlf": e == "\r\n"})
+                       "fault": l.get("fault"), "c": l.get("c"), "e": len(t) == 0, "crlf": e == "\r\n", "inner": int(l.get("nl") or 0)})
     if final_nl:
-        mlines.append({"s": None, "refs": [], "deps": [], "offs": False, "fault": None, "c": None, "e": True, "crlf": False})
+        mlines.append({"s": None, "refs": [], "deps": [], "offs": False, "fault": None, "c": None, "e": True, "crlf": False, "inner": 0})
     return text, mlines
 
 
@@ -192,6 +192,16 @@ def strip_docs(comp: dict) -> dict:
                         for s in comp["schemas"]]}
 
 
+PHYSICAL = [True]  # line numbers the oracle uses: physical lines of the text (a raw line break inside a string literal counts)
+
+
+def lineno(d: dict, i: int) -> int:
+    """1-based number of the physical line on which abstract line i of definition d starts."""
+    if not PHYSICAL[0]:
+        return i + 1
+    return i + 1 + sum(int(l.get("nl") or 0) for l in d["lines"][:i])
+
+
 def faults_of(v: dict) -> typing.List[tuple]:
     """Acceptable (file, line) pairs of the injected faults: [(def, line|None, class, category)]."""
     out = []
@@ -200,23 +210,32 @@ def faults_of(v: dict) -> typing.List[tuple]:
             out.append((di, None, "final", d["dfault"]))
         for i, l in enumerate(d["lines"]):
             if l.get("bad"):
-                out.append((di, i + 1, l["bad"][1], l["bad"][0]))
+                out.append((di, lineno(d, i), l["bad"][1], l["bad"][0]))
     return out
 
 
 def n_lines(v: dict, di: int) -> int:
     d = v["defs"][di]
     fn = v["deco"]["final_nl"]
-    return max(1, len(d["lines"])) + (1 if fn and fn[di % len(fn)] else 0)
+    if d["lines"]:
+        last = len(d["lines"]) - 1
+        n = lineno(d, last) + (int(d["lines"][last].get("nl") or 0) if PHYSICAL[0] else 0)
+    else:
+        n = 1
+    return n + (1 if fn and fn[di % len(fn)] else 0)
 
 
 def flush_line(v: dict, di: int, k: int) -> int:
-    """The line at which a lazily committed attribute of line k is actually committed (only used to classify)."""
-    lines = v["defs"][di]["lines"]
-    j = k  # 0-based index of the next line
+    """The line at which a lazily committed attribute of (numbered) line k is actually committed (only used to classify)."""
+    d = v["defs"][di]
+    lines = d["lines"]
+    start = next((i for i in range(len(lines)) if lineno(d, i) == k), None)
+    if start is None:
+        return -1
+    j = start + 1
     while j < len(lines):
         if lines[j].get("s") is not None or line_is_empty(lines[j]):
-            return j + 1
+            return lineno(d, j)
         j += 1
     return n_lines(v, di)
 
@@ -240,7 +259,7 @@ def prints_of(v: dict) -> typing.Dict[tuple, str]:
         for i, l in enumerate(d["lines"]):
             s = l.get("s")
             if s and s[0] == "dir" and s[1] == "print":
-                out[(di, i + 1)] = s[3]
+                out[(di, lineno(d, i))] = s[3]
     return out
 
 
@@ -266,6 +285,20 @@ def _docs(comp):
 
 
 def oracle_c17(v: dict, impl: dict) -> typing.Optional[str]:
+    r = oracle_c17_numbered(v, impl)
+    if r is not None and any(l.get("nl") for d in v["defs"] for l in d["lines"]):
+        # would the complaint disappear (or change) if line breaks inside string literals were not counted as lines?
+        PHYSICAL[0] = False
+        try:
+            r2 = oracle_c17_numbered(v, impl)
+        finally:
+            PHYSICAL[0] = True
+        if r2 is None:
+            return "multiline-literal-line: line breaks inside a string literal are not counted, later lines are reported too low (%s)" % r
+    return r
+
+
+def oracle_c17_numbered(v: dict, impl: dict) -> typing.Optional[str]:
     faults = faults_of(v)
     if v["mode"] == "files":
         reach = reachable(v, 0)
@@ -288,7 +321,7 @@ def oracle_c17(v: dict, impl: dict) -> typing.Optional[str]:
             if all(x[2] == "final" for x in here):
                 for di, d in enumerate(v["defs"]):
                     for i, l in enumerate(d["lines"]):
-                        if di != f and f in (l.get("deps") or []) and i + 1 == ln:
+                        if di != f and f in (l.get("deps") or []) and lineno(d, i) == ln:
                             return "dependency-finalize-line: error of %s (%s) reported with line %d, which is the referring line in %s" % (_fname(v, f), here[0][3], ln, _fname(v, di))
             return "wrong-line: fault on line(s) %s of %s reported at line %s" % (sorted(x[1] for x in here if x[1]), _fname(v, f), ln)
     # @print deliveries
@@ -660,7 +693,12 @@ def gen_schema(rng, ctx, deps_to_use: list, union: bool, deprecated_here: bool) 
                 ctx["consts"][name] = pv
         elif k == "print":
             r = rng.random()
-            if r < 0.12:
+            if ctx.get("multiline") and rng.random() < 0.5:
+                # a string literal may contain a raw line break (the grammar admits it): one statement on two physical lines
+                ln = mk_line(T("@print", "r", "'a\nb'"), ["dir", "print", ["o"], "'a\\nb'"])
+                ln["nl"] = 1
+                lines.append(ln)
+            elif r < 0.12:
                 lines.append(mk_line(T("@print"), ["dir", "print", None, ""]))
             elif r < 0.3 and ctx["consts"]:
                 cn, cv = rng.choice(sorted(ctx["consts"].items()))
@@ -732,7 +770,7 @@ def gen_deco(rng, n: int) -> dict:
             "final_nl": [rng.random() < 0.5 for _ in range(n)], "route": rng.choice(["file", "file", "raw"])}
 
 
-def gen_namespace(rng, max_defs: int = 4) -> dict:
+def gen_namespace(rng, max_defs: int = 4, prop: str = "C03") -> dict:
     n = rng.choice([1, 1, 2, 2, 3, 4][: max(1, max_defs + 2)])
     n = min(n, max_defs)
     names = rng.sample(DEF_NAMES, n)
@@ -750,8 +788,9 @@ def gen_namespace(rng, max_defs: int = 4) -> dict:
         deprecated.append(all(deprecated[r] for r in referrers[i]) and rng.random() < (0.5 if referrers[i] else 0.2))
     bits: typing.Dict[int, int] = {}
     density = rng.choice([0.0, 0.3, 0.6, 0.9])
+    multiline = prop == "C17" and rng.random() < 0.06
     for i in reversed(range(n)):
-        ctx = {"defs": defs, "me": i, "bits": bits, "consts": {}}
+        ctx = {"defs": defs, "me": i, "bits": bits, "consts": {}, "multiline": multiline}
         deps = list(edges[i])
         rng.shuffle(deps)
         if service[i]:
@@ -1076,7 +1115,7 @@ class TextSuite(common.Suite):
     def generate(self, rng, n, prop, tier):
         out = []
         for _ in range(n):
-            c = gen_namespace(rng)
+            c = gen_namespace(rng, prop=prop)
             c["faults"] = []
             if prop == "C17":
                 r = rng.random()
@@ -1283,5 +1322,9 @@ CORPUS = [
          extra_defs=[{"name": "A", "dir": "", "final_fault": False, "dfault": None, "kind": "message", "deprecated": False,
                       "lines": [_fld("a"), mk_line(), mk_line(T("@print", "r", "1"), ["dir", "print", ["r", 1], "1"]), _SEALED()]}]),
 ]
+
+_ML = mk_line(T("@print", "r", "'a\nb'"), ["dir", "print", ["o"], "'a\\nb'"])
+_ML["nl"] = 1
+CORPUS.append(_txt("A", [_ML, mk_line(T("@assert", "r", "false"), ["dir", "assert", ["b", False], ""], bad=["assert-false", "stmt"]), _SEALED()], final_nl=True))
 
 SUITE = TextSuite()
